@@ -220,6 +220,9 @@ class Oracle(object):
         self._identity(m, h, h.live_params, "after_fit")
     elif kind == "clone" and ev.get("outcome") == "ok":
       self.after_clone(m, op, ev, live, h)
+    elif kind == "clone" and str(ev.get("outcome", "")).startswith("exc"):
+      raise Violation("clone", "cls=%s,raises,after=%s" % (h.name, _last_restart(m, op["h"])),
+                      "clone(%s) raised %s: %s" % (h.name, ev["outcome"], str(live.get("exc"))[:200]))
     elif kind == "restart" and ev.get("outcome") == "ok":
       if hasattr(h, "live_params"):
         del h.live_params          # a restart legitimately creates new objects
@@ -291,6 +294,14 @@ class Oracle(object):
       raise Violation("clone", "cls=%s,clone_fits_differently" % h.name,
                       "clone fitted on the same data gives another metric")
     m.cov["clone_fit_checks"] += 1
+
+
+def _last_restart(m, hid):
+  """'pickle' if the handle went through a restart earlier in the history."""
+  for e in m.events:
+    if e.get("op") == "restart" and e.get("h") == hid and e.get("outcome") == "ok":
+      return "pickle"
+  return "none"
 
 
 def gen_plan(seed, tier):
